@@ -696,6 +696,9 @@ J_C14(i) ==
           old == OldConnOf(i) IN
       Cat(<<If(~ephemeral /\ ConnackSP(e) # (existed /\ ~e.a.clean), Cmp("C14.session-present-flag", e.c, "", IF ConnackSP(e) THEN 1 ELSE 0)),
             If(ephemeral /\ ConnackSP(e) /\ e.a.clean, Cmp("C14.session-present-flag", e.c, "", 1)),
+            \* an MQTT 3 clean session is never a stored session: it ends with its connection (the takeover closes it), so no
+            \* connection of either version resumes it (C15: discarded at disconnect, nothing of it survives for a later connection)
+            If(ephemeral /\ ClientRec(pre, e.c).v < 5 /\ ConnackSP(e), Cmp("C14.v3-clean-session-resumed", e.c, "", 1)),
             \* resumed session keeps subscriptions and unacknowledged messages
             IF ConnackSP(e) THEN
                Cat(<<ForAll({s \in SubsOf(pre, e.c) : ~(\E s2 \in SubsOf(post, e.c) : SameSub(s, s2))}, LAMBDA s : Cmp("C14.subscription-lost-on-resume", e.c, s.fs, 0)),
